@@ -6,7 +6,8 @@
 (* and leaving a block - so BFS enumerates every tree up to MaxNodes once.   *)
 EXTENDS EQLSyntax, Json
 CONSTANTS MaxNodes, NConds, NV,
-          WithNext      \* TRUE: `with next_rule(c):` blocks are written too (a branch that is always consulted as well)
+          WithNext,     \* TRUE: `with next_rule(c):` blocks are written too (a branch that is always consulted as well)
+          SiblingRefs   \* TRUE: a block may hold a second `with refinement(c):` (it joins the chain the first one heads)
 
 Nil == [k |-> "nil"]
 \* alts: the alternatives written in this node's block, in order (each may have alternatives in its own block)
@@ -36,9 +37,13 @@ Top == open[Len(open)]
 \* `with refinement(c):` / `with alternative(c):` inside the block of the node on top of the stack
 OpenBranch(kind, c) ==
   /\ done = <<>> /\ n < MaxNodes
-  /\ (kind = "ref" => Top.node.ref = Nil)                               \* one refinement per node, before or after alternatives
-  /\ open' = Append(IF kind = "ref" THEN [open EXCEPT ![Len(open)].node.reflast = (Top.node.alts # <<>>)] ELSE open,
-                    [node |-> [Node(n + 1, Conds[c], Nil, <<>>) EXCEPT !.edge = IF kind = "next" THEN "next" ELSE "alt"], as |-> kind])
+  /\ (kind = "ref" => IF Top.node.ref = Nil THEN TRUE      \* at most two refinement blocks per branch
+                      ELSE SiblingRefs /\ ~\E j \in 1..Len(Top.node.ref.alts) : Top.node.ref.alts[j].edge = "ref2")
+  /\ LET second == kind = "ref" /\ Top.node.ref # Nil
+     IN open' = Append(IF kind = "ref" /\ ~second THEN [open EXCEPT ![Len(open)].node.reflast = (Top.node.alts # <<>>)] ELSE open,
+                       [node |-> [Node(n + 1, Conds[c], Nil, <<>>) EXCEPT !.edge = IF kind = "next" THEN "next"
+                                                                                 ELSE IF second THEN "ref2" ELSE "alt"],
+                        as |-> IF second THEN "ref2" ELSE kind])
   /\ n' = n + 1 /\ UNCHANGED done
 \* leaving the innermost block attaches the finished node to its parent
 CloseBranch ==
@@ -46,6 +51,7 @@ CloseBranch ==
   /\ LET child == Top
          parent == open[Len(open) - 1]
          newParent == IF child.as = "ref" THEN [parent EXCEPT !.node.ref = child.node]
+                      ELSE IF child.as = "ref2" THEN [parent EXCEPT !.node.ref.alts = Append(@, child.node)]
                       ELSE [parent EXCEPT !.node.alts = Append(@, child.node)]
      IN open' = Append(SubSeq(open, 1, Len(open) - 2), newParent)
   /\ UNCHANGED <<n, done>>
